@@ -7,7 +7,7 @@ from vlib import render as RR
 
 ID = "C11"
 # look-alikes of prelude names (vlib/defs.py HOSTILE) this check's derives are immune to on the unchanged tree
-HOSTILE_OK = ['From', 'Result', 'Some', 'Ok', 'Iterator', 'Clone', 'AsRef', 'Send', 'PhantomData']
+HOSTILE_OK = ['From', 'Result', 'Some', 'Ok', 'Iterator', 'Clone', 'AsRef', 'Send', 'PhantomData', 'IterGet', 'm_matches', 'm_assert', 'm_fmt']
 PROP_FILE = "Props/C11.v"
 RULE = ("definitions: enums with a default variant (tuple / single named field; inner String, Box<str>, a user type with From<&str>; "
         "declared first, in the middle, last; with or without spellings of its own) and/or transparent variants (tuple / named; inner "
@@ -59,6 +59,11 @@ def systematic():
             t2 = Variant("Trans2", "tuple", [Field(inner)], [TRANSPARENT, ser("ignored")])
             vs = [clone_v(ORD[0]), t, clone_v(ORD[2]), t2, clone_v(ORD[3])]
             items.append(("transparent:" + inner, Item("E", vs, metas=[EM("prefix", "pf.")] if named else [])))
+    # default AND transparent (AND to_string) on one variant: transparent decides, the value is forwarded
+    for j, ms in enumerate(([DEFAULT, TRANSPARENT], [TRANSPARENT, DEFAULT, tos("other")], [tos("word:{0}"), DEFAULT, TRANSPARENT], [DEFAULT, tos("lit"), TRANSPARENT])):
+        for named in (False, True):
+            vs = [clone_v(ORD[0]), Variant("Both", "named" if named else "tuple", [Field("String", "inner" if named else "")], list(ms)), clone_v(ORD[2])]
+            items.append(("default-transparent", Item("E", vs, metas=[EM("prefix", "pf.")] if j == 3 else [])))
     # both in one enum
     items.append(("both", Item("E", [Variant("T", "tuple", [Field("String")], [TRANSPARENT]),
                                      Variant("D", "tuple", [Field("String")], [DEFAULT]), clone_v(ORD[0])])))
